@@ -319,3 +319,87 @@ func init() {
 		}
 	}
 }
+
+// largeReadersJob: the reader passes (purity, or concurrent pairs under the race detector) on LARGE
+// containers.  A fixpoint at 200-300 elements is out of reach for the quadratic reader-pair enumeration,
+// so ONE fill history is followed — the first operation of the (deep, data-independent) alphabet that
+// grows the container by one, repeated — and the complete pass runs at the sizes every, 2*every, .. and
+// at the bound.  Exhaustive over reader calls / ordered pairs at the stated states only.
+func largeReadersJob(j Job, r *JobResult) {
+	s := pureSys(makeSys(j.s("c", ""), j))
+	n, every := j.p("n", 200), j.p("every", 64)
+	race := j.s("binary", "") == "race"
+	r.St = Stats{Nested: map[string]int{}, PerSize: map[int]int{}, OpsHistogram: map[string]int{}, Exhaustive: true}
+	if race && !raceEnabled {
+		panic("tool error: race job executed by a binary built without -race")
+	}
+	pass := func(path []Op) bool {
+		build := func() Inst {
+			in := s.New()
+			for _, o := range path {
+				if v := safeStep(in, o, nil); v != nil && v.Class == "panic" {
+					panic("tool error: fill history panics: " + v.Msg) // reported by the family's own property
+				}
+			}
+			return in
+		}
+		inflightSeq.Add(1)
+		var v *Viol
+		if race {
+			r.St.Nested["race_pass_states"]++
+			v = safeCheck(func() *Viol { return racePass(build, j.p("reps", 1), false, &r.St) }, []string{"C18"}, "concurrent readers")
+		} else {
+			v = safeCheck(func() *Viol { return purityPass(build, &r.St) }, []string{"C18"}, "reader purity")
+		}
+		r.St.States++
+		r.St.PerSize[len(path)]++
+		if v != nil && v.Has(j.Prop) {
+			v.Msg = fmt.Sprintf("container filled to %d elements: %s", len(path), v.Msg)
+			r.Found = &Found{V: v, Path: path, Calls: describePath(s, path, nil)}
+			r.St.Exhaustive = false
+			return true
+		}
+		return false
+	}
+	if j.Replay != nil {
+		pass(j.Replay.Path)
+		return
+	}
+	var path []Op
+	cur := s.New()
+	var last *Op
+	for cur.Size() < n {
+		size := cur.Size()
+		var cands []Op
+		if last != nil {
+			cands = append(cands, *last)
+		}
+		cands = append(cands, cur.Ops()...)
+		grown := false
+		for _, o := range cands {
+			safeStep(cur, o, nil)
+			r.St.Transitions++
+			if cur.Size() == size+1 {
+				o := o
+				path, last, grown = append(path, o), &o, true
+				break
+			}
+			// not this one: rebuild the state
+			cur = s.New()
+			for _, p := range path {
+				safeStep(cur, p, nil)
+			}
+		}
+		if !grown {
+			panic(fmt.Sprintf("tool error: no operation of %s grows the container from size %d", s.Name(), size))
+		}
+		if sz := cur.Size(); sz%every == 0 || sz == n {
+			if pass(append([]Op{}, path...)) {
+				return
+			}
+		}
+	}
+	r.St.Samples = []any{map[string]any{"system": s.Name(), "family": "one fill history (single insertions), reader pass at sizes every/2*every/.. and the bound", "every": every, "bound": n, "race_detector": race}}
+}
+
+func init() { jobKinds["largereaders"] = largeReadersJob }
